@@ -254,7 +254,10 @@ func (s *SamplerFactory) ClearDynsamplers() {
 
 	// Stop all shared dynsamplers
 	for _, entry := range s.sharedDynsamplers {
-		if stopper, ok := entry.dynsampler.(interface{ Stop() }); ok {
+		// every dynsampler-go sampler declares Stop() error
+		if stopper, ok := entry.dynsampler.(interface{ Stop() error }); ok {
+			stopper.Stop()
+		} else if stopper, ok := entry.dynsampler.(interface{ Stop() }); ok {
 			stopper.Stop()
 		}
 	}
